@@ -39,6 +39,12 @@ def main(argv):
         eng = engine_for(prop)
         print(json.dumps(eng.det_fingerprints(prop, master, idxs, k)))
         return 0
+    if len(argv) >= 2 and argv[0] == '--hj-ops':
+        from simkit import hjsim
+        return hjsim.ops_main(argv[1])
+    if len(argv) >= 5 and argv[0] == '--hj-sequence':
+        from simkit import hjsim
+        return hjsim.sequence_main(argv[1], argv[2], int(argv[3]), [int(x) for x in argv[4].split(',')])
     if len(argv) >= 2 and argv[0] == '--c19-fresh':
         from simkit import schemasim
         return schemasim.fresh_one(argv[1])
